@@ -388,6 +388,8 @@ func (v *Verifier) contractWrites(c *Ctx, fc *FuncContract) (map[string]bool, bo
 				ws[v.heapKeyByName(c, nil, e.Args[0])] = true
 			case "alloc":
 				ws[aliveKey] = true
+			case "chan", "chans":
+				ws[chLen], ws[chVal], ws[chClosed] = true, true, true
 			case "object":
 				return ws, true
 			case "keys", "mapof":
